@@ -130,13 +130,21 @@ func matchLisp(obj slip.Object, n *Node, path string) *Diff {
 	case kBig:
 		q, _ := n.ratVal()
 		switch to := obj.(type) {
+		case slip.Fixnum:
+			// a number kept as text that does fit an int64
+			if q == nil || !q.IsInt() || !q.Num().IsInt64() || q.Num().Int64() != int64(to) {
+				return bad("big integer")
+			}
 		case *slip.Bignum:
 			if q == nil || !q.IsInt() || q.Num().Cmp((*big.Int)(to)) != 0 {
 				return bad("big integer")
 			}
 		case *slip.LongFloat:
-			r, _ := (*big.Float)(to).Rat(nil)
-			if q == nil || r == nil || r.Cmp(q) != 0 {
+			// a binary float of the precision the decimal text asks for: it
+			// must denote that decimal (its shortest decimal text is the number)
+			bf := (*big.Float)(to)
+			r, ok := new(big.Rat).SetString(bf.Text('g', -1))
+			if q == nil || !ok || r.Cmp(q) != 0 {
 				return bad("big decimal")
 			}
 		default:
@@ -1759,7 +1767,7 @@ func execPath(x *fw.Ctx, c Case) {
 		if (op.Op == "set" || op.Op == "parse") && !op.Path.definite() && op.Val.isContainer() {
 			shared = true
 			x.Cover("path:multi-location-container-set")
-			if !strings.HasPrefix(c.Probe, "path:") {
+			if avoidSharedSet && !strings.HasPrefix(c.Probe, "path:") {
 				// the matches now share one Go value (listed finding); what later
 				// steps do to them depends on the library's map iteration order.
 				// Only the deterministic probe block goes on from here.
